@@ -386,24 +386,50 @@ fn random(args: &[String]) {
     let mut done = 0;
     // one node under test and one mirror for all scenarios (each open RocksDB preallocates ~75 MB): both are
     // truncated back to genesis after a scenario, every scenario uses fresh blocks
-    let p = Params { epoch_len: 4, permanent_difficulty: false, genesis_cells: 32, ..Default::default() };
-    let c = consensus_with(&p, difficulty_to_compact(U256::from(1_000_000u64)));
+    // --directed: one heavy block (+ up to 2 blocks on it) at random depth against a long chain of light blocks with an
+    // invalid block at a random position; constant epoch difficulty, work realised by compact-target multiples
+    let directed = flag(args, "--directed");
+    let p = Params { epoch_len: if directed { 1000 } else { 4 }, permanent_difficulty: directed, genesis_cells: 32, ..Default::default() };
+    let c = if directed { consensus(&p) } else { consensus_with(&p, difficulty_to_compact(U256::from(1_000_000u64))) };
     let n = Node::start(&NodeCfg { assembler: false, ..NodeCfg::temp(&c) });
     let m = Node::start(&NodeCfg { assembler: false, ..NodeCfg::temp(&c) });
     let genesis = c.genesis_block().clone();
     let spares: Vec<_> = (0..32).map(|i| spend(&c, &[genesis_cell(&c, i)], 50_000 * 100_000_000, 1, 1000, 0)).collect();
     for sc in 0..count {
-        let nb = rng.range(8, 30) as usize;
-        // tree: parent among the last 6 blocks of the growing set (forks to depth 6), parent-first ids
         let mut par: Vec<usize> = vec![];
-        let mut depth: Vec<usize> = vec![0];
-        for b in 1..=nb {
-            let lo = if b > 6 { b - 6 } else { 0 };
-            let pp = if rng.chance(2, 3) { b - 1 } else { rng.range(lo as u64, (b - 1) as u64) as usize };
-            par.push(pp);
-            depth.push(depth[pp] + 1);
+        let mut works: Vec<u64> = vec![];
+        let mut ok: Vec<&str> = vec![];
+        let mut shape = Value::Null;
+        if directed {
+            let d = rng.range(0, 4) as usize;           // common prefix
+            let w = rng.range(3, 6);                    // work of the heavy block
+            let e = rng.range(0, 2) as usize;           // unit blocks on top of the heavy block
+            let l = rng.range(w + e as u64, w + e as u64 + 2) as usize;   // light chain: ties, overtakes by 1 or 2
+            let bad_at = if rng.chance(2, 3) { Some(rng.range(1, l as u64) as usize) } else { None };
+            for b in 1..=d {
+                par.push(b - 1); works.push(1); ok.push("ok");
+            }
+            par.push(d); works.push(w); ok.push("ok");                       // heavy block, id d+1
+            for i in 0..e {
+                par.push(d + 1 + i); works.push(1); ok.push("ok");
+            }
+            for i in 0..l {
+                par.push(if i == 0 { d } else { d + 1 + e + i }); works.push(1);
+                ok.push(if bad_at == Some(i + 1) { "bad_ctx" } else { "ok" });
+            }
+            shape = json!({"d": d, "w": w, "e": e, "l": l, "bad_at": bad_at, "heavy": d + 1, "first_light": d + 2 + e});
+        } else {
+            let nb = rng.range(8, 30) as usize;
+            // tree: parent among the last 6 blocks of the growing set (forks to depth 6), parent-first ids
+            for b in 1..=nb {
+                let lo = if b > 6 { b - 6 } else { 0 };
+                let pp = if rng.chance(2, 3) { b - 1 } else { rng.range(lo as u64, (b - 1) as u64) as usize };
+                par.push(pp);
+                works.push(1);
+                ok.push(if rng.chance(1, 8) { if rng.chance(1, 3) { "bad_nc" } else { "bad_ctx" } } else { "ok" });
+            }
         }
-        let ok: Vec<&str> = (0..nb).map(|_| if rng.chance(1, 8) { if rng.chance(1, 3) { "bad_nc" } else { "bad_ctx" } } else { "ok" }).collect();
+        let nb = par.len();
         // depth-first build on the mirror
         let mut dfs: Vec<usize> = vec![];
         let mut stack: Vec<usize> = vec![0];
@@ -424,13 +450,13 @@ fn random(args: &[String]) {
                 m.truncate_to(&pb.hash()).unwrap_or_else(|e| tool_error(&format!("mirror truncate: {e}")));
             }
             // block interval 1 s .. 60 s: the next epoch's difficulty depends on it
-            let ts = pb.timestamp() + 1000 * rng.range(1, 60);
-            let blk = build_block(&m, &c, ok[b - 1], b as u64 + rng.below(2), 1, seed * 1_000_000 + sc * 1000 + b as u64, ts, &spares[b]);
+            let ts = if directed { 0 } else { pb.timestamp() + 1000 * rng.range(1, 60) };
+            let blk = build_block(&m, &c, ok[b - 1], b as u64 + rng.below(2), works[b - 1], seed * 1_000_000 + sc * 1000 + b as u64, ts, &spares[b]);
             m.process_unchecked(&blk).unwrap_or_else(|e| tool_error(&format!("mirror rejects: {e}")));
             blocks[b] = blk;
         }
         // delivery: a random subset (most blocks), random order, some duplicates, one burst
-        let mut order: Vec<usize> = (1..=nb).filter(|_| rng.chance(9, 10)).collect();
+        let mut order: Vec<usize> = (1..=nb).filter(|_| directed || rng.chance(9, 10)).collect();
         for i in (1..order.len()).rev() {
             let j = rng.below(i as u64 + 1) as usize;
             order.swap(i, j);
@@ -445,7 +471,7 @@ fn random(args: &[String]) {
         }
         let mut t = Tally::default();
         for &b in &order {
-            submit(&n, &mut t, &blocks[b], None);
+            submit(&n, &mut t, &blocks[b], if directed { Some(Switch::DISABLE_EPOCH) } else { None });
         }
         let quiet = quiesce(&n, &t, &blocks);
         let snap = n.shared.snapshot();
@@ -463,7 +489,7 @@ fn random(args: &[String]) {
                 "orphan": n.chain.chain_controller().get_orphan_block(store, &h).is_some(),
                 "replies": [cnt(&|r| r == &Ok(true)), cnt(&|r| r == &Ok(false)), cnt(&|r| r.is_err())]}));
         }
-        println!("{}", json!({"random": sc, "seed": seed, "quiet": quiet, "order": order, "blocks": rows,
+        println!("{}", json!({"random": sc, "seed": seed, "quiet": quiet, "order": order, "blocks": rows, "shape": shape,
             "genesis_difficulty": format!("{:x}", genesis.header().difficulty()),
             "tip": id_of(&snap.tip_hash()), "td": format!("{:x}", snap.total_difficulty()), "dropped": t.dropped.load(Ordering::SeqCst)}));
         drop(v);
